@@ -1,5 +1,5 @@
 (* RegexProofs.v — facts about UTF-8 decoding and the regex semantics of Regex.v (for C11). *)
-From Verif Require Import Base Utf8 Regex Prefilter.
+From Verif Require Import Base Utf8 Regex.
 From Coq Require Import Arith ZifyN ZifyBool ZifyNat.
 Ltac Zify.zify_post_hook ::= Z.div_mod_to_equations.
 Open Scope N_scope.
@@ -372,3 +372,243 @@ Proof.
   destruct (endsS_sound w r (boundaries w) j) as [i [Hi Hm]]; [rewrite E; cbn; auto|].
   exists i, j. auto.
 Qed.
+
+(* ====================================================================================== *)
+(* encoding then decoding                                                                  *)
+(* ====================================================================================== *)
+
+Lemma in_rng_intro lo hi b : lo <= b -> b <= hi -> in_rng lo hi b = true.
+Proof. intros. unfold in_rng. apply andb_true_iff. split; apply N.leb_le; lia. Qed.
+
+Lemma decode_encode r rest : valid_rune r = true ->
+  decode_rune (encode_rune r ++ rest) = (r, rune_len r).
+Proof.
+  intro Hv. unfold valid_rune in Hv.
+  assert (Hr : r < 55296 \/ (57343 < r /\ r <= 1114111)).
+  { apply orb_true_iff in Hv. destruct Hv as [H|H]; [left; apply N.ltb_lt; exact H|right].
+    apply andb_true_iff in H. destruct H as [H1 H2]. apply N.ltb_lt in H1. apply N.leb_le in H2. lia. }
+  clear Hv.
+  destruct (N.lt_ge_cases r 128) as [H1|H1].
+  { destruct (enc1 r H1) as [-> [-> _]]. cbn [app]. apply decode_rune_ascii. exact H1. }
+  destruct (N.lt_ge_cases r 2048) as [H2|H2].
+  { destruct (enc2 r H1 H2) as [-> [-> _]]. cbn [app]. unfold decode_rune.
+    replace (192 + r / 64 <? 128) with false by (symmetry; apply N.ltb_ge; lia).
+    rewrite (in_rng_intro 194 223) by lia. rewrite (in_rng_intro 128 191) by lia.
+    f_equal. lia. }
+  destruct (N.lt_ge_cases r 65536) as [H3|H3].
+  { assert (Hs : r < 55296 \/ 57343 < r) by lia.
+    destruct (enc3 r H2 H3 Hs) as [-> [-> _]]. cbn [app]. unfold decode_rune.
+    replace (224 + r / 4096 <? 128) with false by (symmetry; apply N.ltb_ge; lia).
+    replace (in_rng 194 223 (224 + r / 4096)) with false by (symmetry; unfold in_rng; lia).
+    rewrite (in_rng_intro 224 239) by lia.
+    assert (Hb1 : in_rng (if 224 + r / 4096 =? 224 then 160 else 128) (if 224 + r / 4096 =? 237 then 159 else 191)
+                         (128 + (r / 64) mod 64) = true).
+    { destruct (224 + r / 4096 =? 224) eqn:Ea; destruct (224 + r / 4096 =? 237) eqn:Eb; apply in_rng_intro; lia. }
+    rewrite Hb1. rewrite (in_rng_intro 128 191) by lia. cbn [andb]. f_equal. lia. }
+  { assert (H4 : r <= 1114111) by lia.
+    destruct (enc4 r H3 H4) as [-> [-> _]]. cbn [app]. unfold decode_rune.
+    replace (240 + r / 262144 <? 128) with false by (symmetry; apply N.ltb_ge; lia).
+    replace (in_rng 194 223 (240 + r / 262144)) with false by (symmetry; unfold in_rng; lia).
+    replace (in_rng 224 239 (240 + r / 262144)) with false by (symmetry; unfold in_rng; lia).
+    rewrite (in_rng_intro 240 244) by lia.
+    assert (Hb1 : in_rng (if 240 + r / 262144 =? 240 then 144 else 128) (if 240 + r / 262144 =? 244 then 143 else 191)
+                         (128 + (r / 4096) mod 64) = true).
+    { destruct (240 + r / 262144 =? 240) eqn:Ea; destruct (240 + r / 262144 =? 244) eqn:Eb; apply in_rng_intro; lia. }
+    rewrite Hb1. rewrite (in_rng_intro 128 191 (128 + (r / 64) mod 64)) by lia.
+    rewrite (in_rng_intro 128 191 (128 + r mod 64)) by lia. cbn [andb]. f_equal. lia. }
+Qed.
+
+Lemma encode_rune_length r : valid_rune r = true -> length (encode_rune r) = rune_len r.
+Proof.
+  intro Hv. pose proof (decode_encode r [] Hv) as H. rewrite app_nil_r in H.
+  unfold valid_rune in Hv.
+  destruct (N.lt_ge_cases r 128) as [H1|H1]; [destruct (enc1 r H1) as [-> [-> _]]; reflexivity|].
+  destruct (N.lt_ge_cases r 2048) as [H2|H2]; [destruct (enc2 r H1 H2) as [-> [-> _]]; reflexivity|].
+  destruct (N.lt_ge_cases r 65536) as [H3|H3].
+  - assert (Hs : r < 55296 \/ 57343 < r).
+    { apply orb_true_iff in Hv. destruct Hv as [Hv|Hv]; [left; apply N.ltb_lt; exact Hv|right].
+      apply andb_true_iff in Hv. destruct Hv as [Hv _]. apply N.ltb_lt in Hv. exact Hv. }
+    destruct (enc3 r H2 H3 Hs) as [-> [-> _]]; reflexivity.
+  - assert (H4 : r <= 1114111).
+    { apply orb_true_iff in Hv. destruct Hv as [Hv|Hv]; [apply N.ltb_lt in Hv; lia|].
+      apply andb_true_iff in Hv. destruct Hv as [_ Hv]. apply N.leb_le in Hv. exact Hv. }
+    destruct (enc4 r H3 H4) as [-> [-> _]]; reflexivity.
+Qed.
+
+(* ====================================================================================== *)
+(* completeness of the executable semantics                                                *)
+(* ====================================================================================== *)
+
+Definition all_le (w : bytes) (X : list nat) : Prop := forall x, In x X -> (x <= length w)%nat.
+
+Lemma endsS_all_le w r X : all_le w X -> all_le w (endsS r w X).
+Proof.
+  intros HX j Hj. destruct (endsS_sound w r X j Hj) as [i [Hi HM]].
+  apply M_bounds in HM. specialize (HX _ Hi). lia.
+Qed.
+
+(* a set closed under one more iteration of a *)
+Definition closed (w : bytes) (a : re) (R : list nat) : Prop :=
+  forall k j, In k R -> M w a k j -> In j R.
+
+Lemma star_closed w : forall r i j, M w r i j -> forall f a, r = Star f a ->
+  forall R, closed w a R -> In i R -> In j R.
+Proof.
+  intros r i j H.
+  apply (M_mind w (fun r i j => forall f a, r = Star f a -> forall R, closed w a R -> In i R -> In j R)
+                  (fun _ _ _ => True)) with (r := r) (n := i) (n0 := j); try (intros; discriminate); auto.
+  intros f4 a i0 k0 j0 Ha _ Hs IHs f a0 E R Hc Hi. inversion E; subst.
+  apply (IHs _ _ eq_refl R Hc). eapply Hc; eauto.
+Qed.
+
+(* positions of [0, |w|] not yet seen *)
+Definition missing (w : bytes) (seen : list nat) : nat :=
+  length (filter (fun p => negb (memn p seen)) (seq 0 (S (length w)))).
+
+Lemma filter_length_lt {A} (f g : A -> bool) l x :
+  (forall y, g y = true -> f y = true) -> In x l -> f x = true -> g x = false ->
+  (length (filter g l) < length (filter f l))%nat.
+Proof.
+  intros Himp. induction l as [|y l IH]; intros Hin Hf Hg; [destruct Hin|].
+  assert (Hle : forall l', (length (filter g l') <= length (filter f l'))%nat).
+  { induction l' as [|z l' IH']; cbn [filter]; [lia|].
+    destruct (g z) eqn:Egz; [rewrite (Himp _ Egz); cbn [length]; lia|]. destruct (f z); cbn [length]; lia. }
+  cbn [filter]. destruct Hin as [->|Hin].
+  - rewrite Hf, Hg. cbn [length]. specialize (Hle l). lia.
+  - specialize (IH Hin Hf Hg). destruct (g y) eqn:Egy; [rewrite (Himp _ Egy); cbn [length]; lia|].
+    destruct (f y); cbn [length]; lia.
+Qed.
+
+Lemma memn_false j l : memn j l = false <-> ~ In j l.
+Proof. rewrite <- memn_true. destruct (memn j l); split; congruence. Qed.
+
+Lemma missing_decr w seen new n0 :
+  In n0 new -> ~ In n0 seen -> (n0 <= length w)%nat ->
+  (missing w (union new seen) < missing w seen)%nat.
+Proof.
+  intros Hn Hs Hle. unfold missing. apply filter_length_lt with (x := n0).
+  - intros y Hy. apply negb_true_iff in Hy. apply negb_true_iff. apply memn_false in Hy. apply memn_false.
+    intro H. apply Hy. apply union_in. right. exact H.
+  - apply in_seq. lia.
+  - apply negb_true_iff. apply memn_false. exact Hs.
+  - apply negb_false_iff. apply memn_true. apply union_in. left. exact Hn.
+Qed.
+
+Section Sat.
+  Variables (w : bytes) (a : re).
+  (* the body has the exact executable semantics *)
+  Hypothesis a_complete : forall X k j, all_le w X -> In k X -> M w a k j -> In j (endsS a w X).
+
+  Lemma sat_closed : forall fuel frontier seen,
+    all_le w seen -> incl frontier seen ->
+    (forall k j, In k seen -> ~ In k frontier -> M w a k j -> In j seen) ->
+    (missing w seen < fuel)%nat ->
+    let R := sat (endsS a w) fuel frontier seen in
+    incl seen R /\ closed w a R.
+  Proof.
+    induction fuel as [|f IH]; intros frontier seen Hle Hfs Hproc Hfuel; [lia|].
+    cbn [sat].
+    set (new := filter (fun j => negb (memn j seen)) (endsS a w frontier)).
+    assert (Hfle : all_le w frontier) by (intros x Hx; apply Hle; apply Hfs; exact Hx).
+    assert (Hnew_le : all_le w new).
+    { intros x Hx. unfold new in Hx. apply filter_In in Hx. destruct Hx as [Hx _]. eapply endsS_all_le; eauto. }
+    assert (Hstep : forall k j, In k frontier -> M w a k j -> In j seen \/ In j new).
+    { intros k j Hk HM. pose proof (a_complete _ _ _ Hfle Hk HM) as Hj.
+      destruct (memn j seen) eqn:Em; [left; apply memn_true; exact Em|right].
+      unfold new. apply filter_In. split; [exact Hj|]. rewrite Em. reflexivity. }
+    destruct new as [|n0 new'] eqn:En.
+    - (* fixpoint reached *)
+      cbv zeta. split; [apply incl_refl|].
+      intros k j Hk HM. destruct (in_dec Nat.eq_dec k frontier) as [Hkf|Hkf].
+      + destruct (Hstep _ _ Hkf HM) as [H|[]]. exact H.
+      + eapply Hproc; eauto.
+    - rewrite <- En in *.
+      assert (Hn0 : In n0 new) by (rewrite En; left; reflexivity).
+      assert (Hn0s : ~ In n0 seen).
+      { assert (Hf : In n0 (filter (fun j => negb (memn j seen)) (endsS a w frontier))) by (fold new; exact Hn0).
+        apply filter_In in Hf. destruct Hf as [_ Hf].
+        apply negb_true_iff in Hf. apply memn_false. exact Hf. }
+      destruct (IH new (union new seen)) as [Hincl Hclosed].
+      + intros x Hx. apply union_in in Hx. destruct Hx; auto.
+      + intros x Hx. apply union_in. left. exact Hx.
+      + intros k j Hk Hnk HM. apply union_in in Hk. destruct Hk as [Hk|Hk]; [contradiction|].
+        apply union_in. destruct (in_dec Nat.eq_dec k frontier) as [Hkf|Hkf].
+        * destruct (Hstep _ _ Hkf HM); auto.
+        * right. eapply Hproc; eauto.
+      + pose proof (missing_decr w seen new n0 Hn0 Hn0s (Hnew_le _ Hn0)). lia.
+      + cbv zeta in *. split; [|exact Hclosed].
+        intros x Hx. apply Hincl. apply union_in. right. exact Hx.
+  Qed.
+
+  Lemma missing_le_start X i : In i X -> (i <= length w)%nat -> (missing w X < S (length w))%nat.
+  Proof.
+    intros Hi Hle. unfold missing.
+    assert (H : (length (filter (fun p => negb (memn p X)) (seq 0 (S (length w))))
+                 < length (filter (fun _ => true) (seq 0 (S (length w)))))%nat).
+    { apply filter_length_lt with (x := i); auto.
+      - apply in_seq. lia.
+      - apply negb_false_iff. apply memn_true. exact Hi. }
+    assert (Hall : forall l : list nat, filter (fun _ => true) l = l) by (induction l; cbn; congruence).
+    rewrite Hall, seq_length in H. exact H.
+  Qed.
+
+  Lemma sat_start_closed X i : all_le w X -> In i X ->
+    let R := sat (endsS a w) (S (length w)) X X in incl X R /\ closed w a R.
+  Proof.
+    intros Hle Hi. apply sat_closed; auto.
+    - apply incl_refl.
+    - intros k j Hk Hnk. contradiction.
+    - eapply missing_le_start; eauto.
+  Qed.
+End Sat.
+
+Lemma sat_keeps_seen (step : list nat -> list nat) i : forall fuel frontier seen,
+  In i seen -> In i (sat step fuel frontier seen).
+Proof.
+  induction fuel as [|fu IH]; intros frontier seen Hs; cbn [sat]; [exact Hs|].
+  destruct (filter (fun j => negb (memn j seen)) (step frontier)) as [|n0 nw] eqn:E; [exact Hs|].
+  apply IH. apply union_in. right. exact Hs.
+Qed.
+
+Theorem endsS_complete w r : forall i j, M w r i j ->
+  forall X, all_le w X -> In i X -> In j (endsS r w X).
+Proof.
+  induction r using re_ind'; intros i j HM X HX Hi; cbn [endsS].
+  - inversion HM; subst. apply map_opt_in. eauto.
+  - inversion HM; subst. apply map_opt_in. eauto.
+  - inversion HM; subst. apply map_opt_in. eauto.
+  - inversion HM; subst. eapply IHr; eauto.
+  - (* Star *)
+    destruct (sat_start_closed w r (fun X k j HX Hk HM => IHr k j HM X HX Hk) X i HX Hi) as [Hincl Hcl].
+    cbv zeta in *. eapply star_closed; [exact HM|reflexivity|exact Hcl|apply Hincl; exact Hi].
+  - (* Plus *)
+    inversion HM; subst.
+    assert (Hk : In k (endsS r w X)) by (eapply IHr; eauto).
+    assert (HX1 : all_le w (endsS r w X)) by (apply endsS_all_le; exact HX).
+    destruct (sat_start_closed w r (fun X k j HX Hk HM => IHr k j HM X HX Hk) (endsS r w X) k HX1 Hk) as [Hincl Hcl].
+    cbv zeta in *. eapply star_closed; [eassumption|reflexivity|exact Hcl|apply Hincl; exact Hk].
+  - (* Quest *)
+    apply union_in. inversion HM; subst; [right; exact Hi|left; eapply IHr; eauto].
+  - (* Cat *)
+    assert (HML : ML w l i j) by (inversion HM; subst; assumption). clear HM.
+    revert i HML X HX Hi.
+    induction H as [|a l Ha Hl IHl]; intros i HML X HX Hi.
+    + apply ML_nil_inv in HML. subst. exact Hi.
+    + apply ML_cons_inv in HML. destruct HML as [k [Hak Hlk]].
+      apply (IHl k); [exact Hlk|apply endsS_all_le; exact HX|]. eapply Ha; eauto.
+  - (* Alt *)
+    assert (HA : exists a, In a l /\ M w a i j) by (inversion HM; subst; eauto). clear HM.
+    destruct HA as [a [Hin Ha]].
+    induction H as [|b l Hb Hl IHl]; [destruct Hin|].
+    apply union_in. destruct Hin as [->|Hin]; [left; eapply Hb; eauto|right; apply IHl; exact Hin].
+Qed.
+
+Corollary re_matchb_complete r w : re_matches r w -> re_matchb r w = true.
+Proof.
+  intros [i [j [Hi HM]]]. unfold re_matchb.
+  pose proof (endsS_complete w r i j HM (boundaries w) (fun x Hx => boundaries_le w x Hx) Hi) as Hj.
+  destruct (endsS r w (boundaries w)); [destruct Hj|reflexivity].
+Qed.
+
+Theorem re_matchb_exact r w : re_matchb r w = true <-> re_matches r w.
+Proof. split; [apply re_matchb_sound|apply re_matchb_complete]. Qed.
